@@ -111,7 +111,9 @@ Definition check_eng (prop : Z) (inp impl : sx) : sx :=
                else if negb serial && (cancel_at =? 0) && negb (accepted_completeb p script sends acc) then [7; 2] else [])
             else if prop =? 2 then (if negb serial && (cancel_at =? 0) && negb (accepted_completeb p script sends acc) then [2; 3] else [])
             else if prop =? 8 then (if elapsed_okb serial p elapsed then [] else [8])
-            else if prop =? 6 then (if sends_okb p sends acc then [] else [6])
+            else if prop =? 6 then
+              (let rogue := fun q => existsb (fun e => (e_kind e =? 2) && (e_ttl e =? p_ttl q) && (e_ip e =? p_ip q) && Bool.eqb (e_dest e) (p_dest q)) script in
+               if sends_okb rogue p sends acc then [] else [6])
             else if prop =? 5 then (if merge_specb acc hops && forallb (fun q => 0 <=? p_rtt q) acc then [] else [5])
             else [] in
           match spec_fail with
